@@ -826,6 +826,17 @@ def rule_export(chk, prog):
         g = fin[0].build()
         chk.analysed(g)
         cs = [c for c in g.calls() if norm_callee(c.callee) == "sqfs_dir_writer_write_export_table"]
+        if not cs:
+            # the table writers may live in a static helper of finish
+            cl, _e, _u = prog.reachable_from([g], stop=lambda h, u=g.unit: h.unit is not u)
+            for h in cl:
+                if h is g or h.decl:
+                    continue
+                hc = [c for c in h.build().calls() if norm_callee(c.callee) == "sqfs_dir_writer_write_export_table"]
+                if hc:
+                    g, cs = h, hc
+                    chk.analysed(g)
+                    break
         if cs and any((field_of(cond.ops[0] if cond.is_inst and cond.ops else cond) or ("", ""))[1] == "exportable" or
                       depends_on(cond, lambda x: x.is_inst and x.op == "load" and (field_of(x) or ("", ""))[1] == "exportable")
                       for (cond, outcome, br) in g.guards_at(cs[0].bb)):
